@@ -628,19 +628,196 @@ Proof.
   apply andb_true_iff in E as [E1 E2]. apply Z.eqb_eq in E1. f_equal; auto.
 Qed.
 
-(* law_cleanup: per pass largest request first and nothing after a success *)
-Lemma law_cleanup_sound_order pods passes after :
-  nodupb (map p_id pods) = true -> law_cleanup pods passes after = true ->
-  Forall (fun p => StronglySorted (fun a b => b <= a) (map (call_req 1 pods) (fst p)) /\
-                   StronglySorted (fun a b => b <= a) (map (call_req 2 pods) (snd p)) /\
-                   (forall pre c post, fst p = pre ++ c :: post -> snd c = true -> post = []) /\
-                   (forall pre c post, snd p = pre ++ c :: post -> snd c = true -> post = [])) passes.
+(* ---------- second audit: no larger eligible pod is skipped ---------- *)
+(* the strong form of "largest request first" for one list of calls made on the
+   population pods: the pods behind the calls are, in order, a PREFIX of the
+   eligible pods of that population sorted by descending request; the whole
+   list when no call succeeded.  So the first call targets a maximal-request
+   eligible pod and every next call a maximal one among those not yet tried. *)
+Definition calls_strong (res : Z) (pods : list pod) (cs : list (Z * bool)) : Prop :=
+  exists tried rest,
+    map p_id tried = map fst cs /\
+    StronglySorted (ge_req res) (tried ++ rest) /\
+    Permutation (tried ++ rest) (filter eligible pods) /\
+    (Forall (fun c => snd c = false) cs -> rest = []).
+
+Lemma try_evict_strong res pods fl :
+  calls_strong res pods (a_calls (try_evict (victims res pods) fl)).
+Proof.
+  set (v := victims res pods).
+  destruct (tried_prefix v fl) as (rest & E & N).
+  exists (tried_pods v fl), rest. split; [apply tried_ids|]. rewrite <- E. split; [|split].
+  - apply ssorted_filter, victims_sorted.
+  - rewrite filter_eligible.
+    assert (Hp : forall (f : pod -> bool) l1 l2, Permutation l1 l2 -> Permutation (filter f l1) (filter f l2)).
+    { intros f l1 l2 H. induction H; simpl; auto.
+      - destruct (f x); auto.
+      - destruct (f x), (f y); auto. apply perm_swap.
+      - eapply perm_trans; eauto. }
+    apply Hp, victims_perm.
+  - intros F. apply N.
+    destruct (calls_shape v fl) as (fails & _ & Es).
+    destruct (a_evicted (try_evict v fl)) as [id|]; auto.
+    rewrite Es in F. apply Forall_app in F as [_ F]. inversion F; subst. discriminate.
+Qed.
+
+Lemma filter_all_true {A} (f : A -> bool) l : (forall x, f x = true) -> filter f l = l.
+Proof. intros H. induction l; simpl; auto. now rewrite H, IHl. Qed.
+
+(* one Cleanup pass: nothing is called when the extend resource is not in use,
+   otherwise the strong form on the population that pass listed *)
+Definition pass_strong (res : Z) (pods : list pod) (cs : list (Z * bool)) : Prop :=
+  if use_extend res pods then calls_strong res pods cs else cs = [].
+
+Lemma evict_pass_strong res pods fl :
+  let '(s', cs, _) := evict_pass res (pods, fl) in
+  pass_strong res pods cs /\ fst s' = remove_succ cs pods.
+Proof.
+  unfold evict_pass, pass_strong. destruct (use_extend res pods).
+  - split; [apply try_evict_strong|]. cbn [fst]. unfold after_attempt, remove_succ.
+    destruct (calls_shape (victims res pods) fl) as (fails & F & E). rewrite E. clear E.
+    assert (Hs : succeeded fails = []).
+    { unfold succeeded. clear -F. induction F as [|c l Hc F IH]; simpl; auto. rewrite Hc. exact IH. }
+    unfold succeeded in *. rewrite filter_app, map_app, Hs.
+    destruct (a_evicted (try_evict (victims res pods) fl)) as [id|]; cbn [filter snd map fst app].
+    + unfold remove_pod. apply filter_ext. intros p. unfold zmem. cbn [existsb]. now rewrite orb_false_r.
+    + symmetry. apply filter_all_true. intros x. reflexivity.
+  - split; auto. cbn [fst]. unfold remove_succ, succeeded. cbn [filter map].
+    symmetry. apply filter_all_true. intros x. reflexivity.
+Qed.
+
+(* all passes of a Cleanup, each judged on the population IT listed *)
+Fixpoint passes_strong (pods : list pod) (passes : list (list (Z * bool) * list (Z * bool))) : Prop :=
+  match passes with
+  | [] => True
+  | (c1, c2) :: r =>
+      pass_strong 1 pods c1 /\ pass_strong 2 (remove_succ c1 pods) c2 /\
+      passes_strong (remove_succ c2 (remove_succ c1 pods)) r
+  end.
+
+Fixpoint pods_after (pods : list pod) (passes : list (list (Z * bool) * list (Z * bool))) : list pod :=
+  match passes with
+  | [] => pods
+  | (c1, c2) :: r => pods_after (remove_succ c2 (remove_succ c1 pods)) r
+  end.
+
+Lemma passes_strong_snoc : forall passes pods c1 c2,
+  passes_strong pods passes ->
+  pass_strong 1 (pods_after pods passes) c1 ->
+  pass_strong 2 (remove_succ c1 (pods_after pods passes)) c2 ->
+  passes_strong pods (passes ++ [(c1, c2)]) /\
+  pods_after pods (passes ++ [(c1, c2)]) = remove_succ c2 (remove_succ c1 (pods_after pods passes)).
+Proof.
+  induction passes as [|[a b] r IH]; intros pods c1 c2 H H1 H2; simpl in *.
+  - repeat split; auto.
+  - destruct H as (A & B & C). destruct (IH _ c1 c2 C H1 H2) as [I1 I2]. repeat split; auto.
+Qed.
+
+Lemma evict_loop_strong : forall fuel round ne pods0 pods fl acc,
+  passes_strong pods0 acc -> pods = pods_after pods0 acc ->
+  match evict_loop fuel round ne (pods, fl) acc with
+  | ClDone _ _ passes s => passes_strong pods0 passes /\ fst s = pods_after pods0 passes
+  | ClFuel => True
+  end.
+Proof.
+  induction fuel as [|k IH]; intros round ne pods0 pods fl acc HS HP; cbn [evict_loop]; auto.
+  destruct (ne =? Z.of_nat round). { split; auto. }
+  pose proof (evict_pass_strong 1 pods fl) as F1.
+  destruct (evict_pass 1 (pods, fl)) as [[[pods1 fl1] c1] k1]. cbn [fst] in F1. destruct F1 as [S1 E1].
+  pose proof (evict_pass_strong 2 pods1 fl1) as F2.
+  destruct (evict_pass 2 (pods1, fl1)) as [[[pods2 fl2] c2] k2]. cbn [fst] in F2. destruct F2 as [S2 E2].
+  subst pods pods1.
+  destruct (passes_strong_snoc acc pods0 c1 c2 HS S1 S2) as [N1 N2].
+  destruct (k1 || k2).
+  - apply IH; auto. congruence.
+  - split; auto. cbn [fst]. congruence.
+Qed.
+
+(* Cleanup: in every pass of every round no larger eligible pod of the population
+   listed by that pass is skipped *)
+Lemma cleanup_strong ne pods fl :
+  match cleanup ne (pods, fl) with
+  | ClDone _ _ passes s => passes_strong pods passes /\ fst s = pods_after pods passes
+  | ClFuel => True
+  end.
+Proof.
+  unfold cleanup. destruct (ne =? 0). { simpl. auto. }
+  cbn [fst]. apply evict_loop_strong; simpl; auto.
+Qed.
+
+(* sequences of pressure events: the i-th output is the handler's answer on the
+   state reached after the first i events, hence the strong single-event
+   theorem applies to every event at the population IT sees *)
+Lemma hrun_app : forall l1 l2 s,
+  hrun s (l1 ++ l2) =
+  let '(s1, o1) := hrun s l1 in let '(s2, o2) := hrun s1 l2 in (s2, o1 ++ o2).
+Proof.
+  induction l1 as [|e l1 IH]; intros l2 s; cbn [hrun app].
+  - destruct (hrun s l2). reflexivity.
+  - destruct (handle s e) as [s1 o]. rewrite IH.
+    destruct (hrun s1 l1) as [s2 o1]. destruct (hrun s2 l2) as [s3 o2]. reflexivity.
+Qed.
+
+Lemma hrun_length : forall l s, length (snd (hrun s l)) = length l.
+Proof.
+  induction l as [|e l IH]; intros s; cbn [hrun]; auto.
+  destruct (handle s e) as [s1 o]. specialize (IH s1). destruct (hrun s1 l). simpl in *. now rewrite IH.
+Qed.
+
+Lemma hrun_strong evs1 e evs2 pods fl : processed e = true ->
+  let s1 := fst (hrun (pods, fl) evs1) in
+  exists o ids, nth_error (snd (hrun (pods, fl) (evs1 ++ e :: evs2))) (length evs1) = Some (o, ids) /\
+                o = snd (handle s1 e) /\ calls_strong (e_res e) (fst s1) (h_calls o).
+Proof.
+  intros P s1. rewrite hrun_app.
+  pose proof (hrun_length evs1 (pods, fl)) as L.
+  destruct (hrun (pods, fl) evs1) as [[pods1 fl1] o1] eqn:H1. subst s1. cbn [fst snd] in *.
+  cbn [hrun]. destruct (handle (pods1, fl1) e) as [s2 o] eqn:He.
+  destruct (hrun s2 evs2) as [s3 o2]. cbn [snd].
+  exists o, (map p_id (fst s2)). split; [|split].
+  - rewrite nth_error_app2 by lia. rewrite L, Nat.sub_diag. reflexivity.
+  - reflexivity.
+  - pose proof (handle_processed pods1 fl1 e P) as HP. rewrite He in HP. injection HP as _ ->.
+    cbn [h_calls]. apply try_evict_strong.
+Qed.
+
+(* meaning of the boolean no-skip check used by the laws *)
+Lemma no_skip_sound res pods calls p :
+  no_skip res pods calls = true -> In p pods -> eligible p = true -> ~ In (p_id p) (map fst calls) ->
+  succeeded calls <> [] /\ exists lastc, rev calls = lastc :: tl (rev calls) /\ req res p <= call_req res pods lastc.
+Proof.
+  unfold no_skip. intros H Hp He Hn. rewrite forallb_forall in H. specialize (H p Hp).
+  rewrite He in H. simpl in H.
+  assert (Z : zmem (p_id p) (map fst calls) = false).
+  { unfold zmem. apply not_true_is_false. intros T. apply existsb_exists in T as (x & Hx & Ex).
+    apply Z.eqb_eq in Ex. subst x. auto. }
+  rewrite Z in H. simpl in H.
+  destruct (succeeded calls) as [|s ss]; [discriminate|]. destruct (rev calls) as [|lastc r]; [discriminate|].
+  apply Z.leb_le in H. split; [discriminate|]. exists lastc. simpl. auto.
+Qed.
+
+(* law_cleanup: every pass is judged on the population it listed *)
+Lemma pass_ok_sound res pods cs : pass_ok res pods cs = true ->
+  (forall c, In c cs -> exists p, In p pods /\ p_id p = fst c /\ preemptable p = true /\ critical p = false) /\
+  StronglySorted (fun a b => b <= a) (map (call_req res pods) cs) /\
+  (forall pre c post, cs = pre ++ c :: post -> snd c = true -> post = []) /\
+  (use_extend res pods = false -> cs = []) /\
+  (use_extend res pods = true -> forall p, In p pods -> eligible p = true -> ~ In (p_id p) (map fst cs) ->
+     succeeded cs <> [] /\ exists lastc, rev cs = lastc :: tl (rev cs) /\ req res p <= call_req res pods lastc).
+Proof.
+  unfold pass_ok. intros H. apply andb_true_iff in H as [H U]. apply andb_true_iff in H as [H S].
+  apply andb_true_iff in H as [H D]. apply andb_true_iff in H as [E N].
+  split; [|split; [|split; [|split]]].
+  - rewrite forallb_forall in E. intros c Hc. apply call_eligible_sound. auto.
+  - now apply descending_sound.
+  - now apply success_only_last_sound.
+  - intros X. rewrite X in U. destruct cs; auto. discriminate.
+  - intros X. rewrite X in U. intros p Hp He Hn. eapply no_skip_sound; eauto.
+Qed.
+
+Lemma law_cleanup_sound_passes pods passes after :
+  nodupb (map p_id pods) = true -> law_cleanup pods passes after = true -> passes_ok pods passes = true.
 Proof.
   intros ND. unfold law_cleanup. rewrite ND. intros H.
-  repeat (apply andb_true_iff in H as [H ?]).
-  match goal with X : forallb _ passes = true |- _ => rewrite forallb_forall in X; rename X into F end.
-  apply Forall_forall. intros p Hp. specialize (F p Hp). unfold pass_ok in F.
-  apply andb_true_iff in F as [F1 F2]. apply andb_true_iff in F1 as [D1 S1]. apply andb_true_iff in F2 as [D2 S2].
-  split; [apply descending_sound; exact D1|]. split; [apply descending_sound; exact D2|].
-  split; apply success_only_last_sound; assumption.
+  repeat (apply andb_true_iff in H as [H ?]). assumption.
 Qed.
